@@ -261,4 +261,66 @@ theorem prep_succ (n : Nat) (ih : AllSpec n) (args : List Expr) (f : Option FnOb
     rw [d2, d1, List.length_cons, List.replicate_succ']
     simp
 
+/-! ## `callUser` -/
+
+theorem user_succ (n : Nat) (ih : AllSpec n) (name : String) (k : Nat) (s s' : St) (tail : List Cell) (hw : WF s)
+    (hd : s.data.map cellOf = List.replicate k .val ++ tail) (hex : (callUser (n + 1) name k).run s = (.ok (), s')) :
+    WF s' ∧ TExt s s' ∧ s'.data.map cellOf = .val :: tail ∧ s'.linear = s.linear ∧ s'.addr = s.addr ∧
+      s'.curfunc = s.curfunc ∧ s'.pc = s.pc + 1 ∧ s'.suspended = s.suspended := by
+  unfold VM.callUser at hex
+  rw [run_bind, run_get] at hex
+  dsimp only at hex
+  by_cases h0 : s.data.length < k
+  · simp only [h0, if_true, run_bind, run_err] at hex; cases hex
+  · by_cases h00 : (s.data.take k).any Option.isNone = true
+    · simp only [h0, h00, if_true, if_false, run_bind, run_pure, run_hostPanic] at hex; cases hex
+    · simp only [h0, h00, if_false, run_bind, run_pure, Bool.false_eq_true] at hex
+      rw [run_popN] at hex
+      simp only [h0, if_false] at hex
+      cases hm : (s.data.take k).mapM id with
+      | none => rw [hm] at hex; cases hex
+      | some vs =>
+        rw [hm] at hex
+        simp only [run_capture, run_modify, run_get, run_set] at hex
+        have htake : (s.data.take k).map cellOf = List.replicate k Cell.val := by
+          rw [List.map_take, hd, List.take_left' (by simp)]
+        have hvs : ∀ v ∈ vs, vok s.fns.length v = true := by
+          apply vals_vok _ vs hm (fun c hcm => hw.data c (List.mem_of_mem_take hcm))
+          intro c hcm
+          rw [htake] at hcm
+          exact List.eq_of_mem_replicate hcm
+        have hdrop : (s.data.drop k).map cellOf = tail := by
+          rw [List.map_drop, hd, List.drop_left' (by simp)]
+        -- the state the builtin runs in
+        let s2 : St := { s with data := s.data.drop k, addr := some (s.curfunc, s.pc + 1) :: s.addr, curfunc := builtinFn, pc := -1 }
+        have hw2 : WF s2 :=
+          hw.mk' (TExt.same rfl rfl) (fun j h1 h2 => absurd h2 (Nat.not_lt.mpr h1)) hw.loopstack hw.scopes hw.heap hw.lazies
+            (fun c hcm => hw.data c (List.mem_of_mem_drop hcm))
+        rcases hb : (builtin n name vs.reverse).run s2 with ⟨r, s3⟩
+        have hb' : (builtin n name vs.reverse).run
+            { s with data := s.data.drop k, addr := some (s.curfunc, s.pc + 1) :: s.addr, curfunc := builtinFn, pc := -1 } = (r, s3) := hb
+        rw [hb'] at hex
+        cases r with
+        | error e => cases e <;> simp only [run_bind, run_restore, run_throw] at hex <;> cases hex
+        | ok v =>
+          obtain ⟨hk, hv⟩ := ih.builtin name vs.reverse s2 s3 v hw2 (fun a ha => hvs a (List.mem_reverse.mp ha)) hb
+          simp only [run_bind, run_pushData, run_get] at hex
+          have ha3 : s3.addr = some (s.curfunc, s.pc + 1) :: s.addr := hk.same.addr
+          have hgt : (captureOf { s with data := s.data.drop k }).addrSize < (some (s.curfunc, s.pc + 1) :: s.addr).length := by
+            show s.addr.length < (some (s.curfunc, s.pc + 1) :: s.addr).length; simp
+          simp only [ha3] at hex
+          rw [if_pos hgt] at hex
+          simp only [run_set] at hex
+          cases hex
+          have he23 : TExt s s3 := (show TExt s s2 from TExt.same rfl rfl).trans hk.ext
+          refine ⟨?_, he23.trans ⟨⟨[], by simp⟩, ⟨[], by simp⟩⟩, ?_, hk.same.linear, rfl, rfl, rfl, hk.same.susp⟩
+          · refine hk.wf.mk' (TExt.same rfl rfl) (fun j h1 h2 => absurd h2 (Nat.not_lt.mpr h1)) hk.wf.loopstack hk.wf.scopes
+              hk.wf.heap hk.wf.lazies ?_
+            intro c hcm
+            rcases List.mem_cons.mp hcm with rfl | hcm
+            · exact cellOK_of_vok hv
+            · exact hk.wf.data c hcm
+          · show cellOf (some v) :: s3.data.map cellOf = _
+            rw [cellOf_plain (vok_plain hv), hk.same.data, hdrop]
+
 end ZygoVerif.RunInv
